@@ -79,6 +79,13 @@ type transCfg struct {
 	// that the body may assign; their final values are appended to every
 	// result tuple (a method without results yields just these).
 	stateOut []string
+	// appendTo: a method call used as a statement (by the source text of the
+	// called expression, e.g. "r.h.Write") that appends its one argument to
+	// the named state (a []byte in stateOut, e.g. "r.h": everything written
+	// to a hash so far).  An extern argument type "state:<src>" passes that
+	// state instead of the call's own argument (which must be nil), as in
+	// r.h.Sum(nil).
+	appendTo map[string]string
 }
 
 // ---------------------------------------------------------------- types
@@ -937,6 +944,26 @@ func (t *tr) binary(x *ast.BinaryExpr) (string, string) {
 			return isnil, tBool
 		}
 	}
+	if x.Op == token.EQL || x.Op == token.NEQ {
+		// comparison of an error with a sentinel error value (io.EOF)
+		isSentinel := func(e ast.Expr) bool {
+			sel, ok := e.(*ast.SelectorExpr)
+			if !ok {
+				return false
+			}
+			ip, ok := t.importPath(sel.X)
+			return ok && libErrVars[filepath.Base(ip)+"."+sel.Sel.Name]
+		}
+		if isSentinel(x.X) || isSentinel(x.Y) {
+			a := t.exprAs(x.X, tErr)
+			b := t.exprAs(x.Y, tErr)
+			r := "(opt_eqb go_err_eqb " + a + " " + b + ")"
+			if x.Op == token.NEQ {
+				r = "(negb " + r + ")"
+			}
+			return r, tBool
+		}
+	}
 	a, ta := t.expr(x.X)
 	g0 := len(t.guards)
 	b, tb := t.expr(x.Y)
@@ -1057,6 +1084,15 @@ func (t *tr) binary(x *ast.BinaryExpr) (string, string) {
 func (t *tr) args(c *ast.CallExpr, want []string) string {
 	var as []string
 	for i, w := range want {
+		if strings.HasPrefix(w, "state:") {
+			v := t.lookup(strings.TrimPrefix(w, "state:"))
+			if v == nil || i >= len(c.Args) || !isIdent(c.Args[i], "nil") {
+				t.fail(c, "state argument")
+				continue
+			}
+			as = append(as, v.coq)
+			continue
+		}
 		if w == "...string" {
 			var items []string
 			for _, a := range c.Args[i:] {
@@ -1339,6 +1375,13 @@ func (t *tr) assigned(nodes ...ast.Node) []string {
 				}
 			case *ast.IncDecStmt:
 				add(s.X)
+			case *ast.ExprStmt:
+				if c, ok := s.X.(*ast.CallExpr); ok {
+					if st, ok := t.cfg.appendTo[t.p.src(c.Fun)]; ok && t.isState(st) && !seen[st] {
+						seen[st] = true
+						out = append(out, st)
+					}
+				}
 			case *ast.DeclStmt:
 				if gd, ok := s.Decl.(*ast.GenDecl); ok {
 					for _, sp := range gd.Specs {
@@ -1506,6 +1549,18 @@ func (t *tr) stmts(ss []ast.Stmt, k kont) string {
 			op = "-"
 		}
 		return "let " + v.coq + " := " + t.wrap(v.typ, "("+v.coq+" "+op+" 1)") + " in\n" + restHere()
+	case *ast.ExprStmt:
+		if c, ok := x.X.(*ast.CallExpr); ok && len(c.Args) == 1 && !c.Ellipsis.IsValid() {
+			if st, ok := t.cfg.appendTo[t.p.src(c.Fun)]; ok && t.isState(st) {
+				if v := t.lookup(st); v != nil && v.typ == tBytes {
+					a := t.exprAs(c.Args[0], tBytes)
+					gs := t.takeGuards()
+					return wrapG(gs, "let "+v.coq+" := ("+v.coq+" ++ "+a+") in\n"+restHere())
+				}
+			}
+		}
+		t.fail(x, "expression statement")
+		return "GoUnknown"
 	case *ast.IfStmt:
 		return t.ifStmt(x, k, t.later(restHere))
 	case *ast.SwitchStmt:
@@ -2351,6 +2406,10 @@ func emitCodeArea(repo, area string, targets []codeTarget) (string, error) {
 		for _, e := range g.externs {
 			var ts []string
 			for _, a := range e.args {
+				if strings.HasPrefix(a, "state:") {
+					ts = append(ts, "list N") // an appendTo state: the bytes written so far
+					continue
+				}
 				ts = append(ts, coqType(normT(a)))
 			}
 			ts = append(ts, coqType(tupleT(e.res)))
